@@ -446,6 +446,20 @@ pub fn tpages(g: &mut Gen, shard: usize) {
     // a clone that is hashed from scratch is not possible through the API (clones keep their caches);
     // a fresh tree with the same content hashed ONCE is what check_hashed's rebuild already does
     g.op("iter 0".into());
+    if shard <= 1 {
+        // tens of thousands of page ranges through the OWNED types: snapshots of > 2^16 ranges (and
+        // > 2^16 distinct bounds), diffs in every representation against a diverged clone
+        g.op("clone 1 0".into());
+        for (gi, j) in [(0usize, 0usize), (ng / 2, nj / 2), (ng - 1, nj - 1)] {
+            g.op(format!("ups 1 {} {} {}", xtok(&k0(gi, j)), xtok(&d(0)), xtok(&val_digest(0x77, n))));
+        }
+        g.op("hash 1".into());
+        g.op("snap 8 0".into());
+        g.op("snap 9 1".into());
+        g.op("diff2 0 1".into());
+        g.op("ldiff 8 9".into());
+        g.cases += 1;
+    }
     g.sample(format!("tpages shard {shard}: {total} pages, hash requests regenerating exactly {targets:?} pages"));
 }
 
@@ -1062,6 +1076,74 @@ pub fn dpad(g: &mut Gen, r: &mut Rng, cases: usize) {
         g.op("hash 0".into());
         g.op("iter 0".into());
         g.op("diff2 0 1".into());
+    }
+}
+
+// ------------------------------------------------------------------------------------------------
+// S-wide: two replicas with WIDE trees (a root of 40..200 keys, each with a leaf page below it), in
+// agreement except for 1..3 keys at chosen positions (the LAST pages, the first pages, anywhere),
+// then the two-way rounds of `rsettle` with its rounds bound: a diff that drops, caps or reorders
+// ranges when there are many of them stalls or needs more rounds than there are disagreeing keys
+// ------------------------------------------------------------------------------------------------
+
+pub fn swide(g: &mut Gen, r: &mut Rng, cases: usize) {
+    for case in 0..cases {
+        let mut r = r.fork(0x5a1de + case as u64);
+        let n = [3usize, 16][r.below(2) as usize];
+        let base = 16u8;
+        // a third replica (starting EMPTY) in a third of the cases: join only (C06)
+        let nrep = if r.chance(1, 3) { 3 } else { 2 };
+        let m = if nrep == 3 || r.chance(2, 3) { "join" } else { "peer" };
+        // a quarter of the cases: MORE than 255 root keys (one page of > 255 nodes)
+        let np = if r.chance(1, 4) { 256 + r.below(60) as usize } else { 40 + r.below(160) as usize };
+        let mut keys: Vec<(Vec<u8>, u32)> = vec![];
+        for i in 0..np {
+            keys.push((vec![(i >> 8) as u8, i as u8, 1], 0));
+            if r.chance(1, 3) {
+                keys.push((vec![(i >> 8) as u8, i as u8, 2], 0));
+            }
+            keys.push((vec![(i >> 8) as u8, i as u8, 0x80], 1));
+        }
+        let nk = keys.len();
+        let kds: Vec<Vec<u8>> = keys.iter().enumerate().map(|(i, (_, l))| digest_for_level(*l, base, n, (i as u8).wrapping_mul(2))).collect();
+        let val = |v: u8| -> Vec<u8> {
+            let mut d = vec![0x40u8; n];
+            d[n - 1] = v;
+            d
+        };
+        g.op(format!("rnew 0 {base} n={n}"));
+        g.op(format!("rnew 1 {base} n={n}"));
+        if nrep == 3 {
+            g.op(format!("rnew 2 {base} n={n}"));
+        }
+        g.cases += 1;
+        for i in 0..nk {
+            g.op(format!("rwrite 0 {} {} {} {m}", xtok(&keys[i].0), xtok(&kds[i]), xtok(&val(1))));
+            g.op(format!("rwrite 1 {} {} {} {m}", xtok(&keys[i].0), xtok(&kds[i]), xtok(&val(1))));
+        }
+        let ndis = 1 + r.below(3) as usize;
+        let where_ = r.below(3);
+        for _ in 0..ndis {
+            let i = match where_ {
+                0 => nk - 1 - r.below((nk as u64 / 8).max(1)) as usize, // the last pages
+                1 => r.below((nk as u64 / 8).max(1)) as usize,          // the first pages
+                _ => r.below(nk as u64) as usize,
+            };
+            let rep = r.below(2);
+            if r.chance(1, 4) {
+                // a key only one replica holds
+                let mut k = keys[i].0.clone();
+                k.push(9);
+                g.op(format!("rwrite {rep} {} {} {} {m}", xtok(&k), xtok(&digest_for_level(0, base, n, 0x33)), xtok(&val(5))));
+            } else {
+                g.op(format!("rwrite {rep} {} {} {} {m}", xtok(&keys[i].0), xtok(&kds[i]), xtok(&val(2 + r.below(3) as u8))));
+            }
+        }
+        g.note(&format!("swide-{m}-where{where_}-rep{nrep}{}", if np > 255 { "-wide256" } else { "" }));
+        g.op(format!("rsettle {m}"));
+        if case < 1 {
+            g.sample(format!("swide case {case}: {np} root keys, {nk} keys, {ndis} disagreements ({m})"));
+        }
     }
 }
 
